@@ -5,7 +5,14 @@ model's inlined program are cross-checked against both gfortran outputs.
 
 The model is in FIXED mode for fixes/C07-loopvar-formal.patch and fixes/C07-outer-capture.patch: on a tree
 without them the former witnesses (corpus/C07/fixed-*.json) are reported as VIOLATION.  Subroutine calls and
-function references inside assignments are covered."""
+function references inside assignments are covered.
+
+Array-section actuals: besides the random generator (c07_gen) a SYSTEMATIC family (c07_sec: rank 1..3 actual, every
+pattern of scalar / section positions, classes of indices, section bounds, formal bounds, steps) is run on every check.
+Every element reference to an array formal bound to `a(...)` is compared, for any rank, with the rank-generic Lean model
+of `_update_actual_indices` (`updateIdx`, driver query `idxmap`), and the array-argument checks of validate with
+`checkIdx` (query `checkidx`).  fixes/C07-fullrange-assumed-lower.patch repairs a crash of apply the family found
+(corpus/C07/fixed-fullrange-assumed-lower.json); whole-array / full-range references are checked by gfortran only."""
 import concurrent.futures
 import glob
 import json
@@ -616,15 +623,24 @@ def property_verdict(r):
 def run(chk):
     chk.cov["rule"] = ("generated module with caller main + callee s (scalar / element / expression / literal / rank-1 / rank-2 / "
                        "section / row / column actuals, shifted and explicit formal bounds, clashing local names, callee "
-                       "modifying arguments and subscript variables, call at top level / in a loop / in an if); non-trivial = "
+                       "modifying arguments and subscript variables, call at top level / in a loop / in an if) PLUS the systematic "
+                       "array-section family c07_sec (rank-1..3 actuals x position of the sections x scalar-index class x section "
+                       "class x formal lower bound x step x body, enumerated); non-trivial = "
                        "the call was accepted and the callee has >= 2 statements; distinct by source text")
     chk.assumptions += [
         "MiniF value domain: default INTEGERs without overflow (-ftrapv traps are skipped)",
         "callee locals are written before they are read (generator); CALL semantics starts them with arbitrary contents",
         "actual arguments passed to definable dummies do not alias (Fortran 2018 15.5.2.13); the theorems do not need it",
         "formal array lower bounds are integer literals; an expression actual's dummy is never defined",
+        "declared bounds of the caller's arrays are integer literals and a section start is a literal or contains a variable: "
+        "is_lower_bound (SymbolicMaths equality with the declared bound) is modelled as syntactic equality with the literal",
+        "index map (updateIdx / C07_index_map_sound) covers ELEMENT references x(k..) for any rank; whole-array and full-range "
+        "references to array formals (x, x(:)) are outside the Lean model and checked by gfortran only (known finding "
+        "C07-explicit-shape-whole-array lives there); rank-3 programs are not executed by MiniF: index map + checkIdx + gfortran",
+        "explicit-shape dummies of rank >= 2 whose extents differ from the section's (sequence association) are not generated",
         "exporters harness/minif.py and harness/props/c07.py (PSyIR -> MiniF / model Call) are trusted",
-        "model in FIXED mode for fixes/C07-loopvar-formal.patch and fixes/C07-outer-capture.patch (an unfixed tree yields "
+        "model in FIXED mode for fixes/C07-loopvar-formal.patch, fixes/C07-outer-capture.patch and (crash of apply on x(:) with "
+        "a formal declared `lo:`) fixes/C07-fullrange-assumed-lower.patch (an unfixed tree yields "
         "VIOLATION on those inputs); callee frame: C07_frame_independent shows the CALL's visible result does not depend on "
         "where fresh storage for the callee locals is taken"]
     chk.cov["trusted_base"] = ["Lean 4.33.0 kernel", "axioms propext/Classical.choice/Quot.sound only (audited)",
@@ -634,7 +650,7 @@ def run(chk):
     t0 = time.time()
     chk.lean()
     chk.cov["phase_s"] = {"lean": round(time.time() - t0, 1)}
-    n = 800 if chk.tier == "thorough" else 60
+    n = getattr(chk, "random_cases", 800 if chk.tier == "thorough" else 60)     # (attribute: test hook, never set by run.py)
     cases = []
     for path in sorted(glob.glob(os.path.join(common.ROOT, "corpus", "C07", "*.json"))):
         p = json.load(open(path))
